@@ -142,7 +142,7 @@ pub struct Finding {
     pub status: String, // "known" | "fixed"
     pub property: String,
     pub id: String,
-    /// Exact signature, or prefix when it ends with '*'.
+    /// Signature pattern: exact, or a glob with `*` wildcards.
     #[serde(default)]
     pub signature: String,
     pub what: String,
@@ -171,13 +171,35 @@ impl Findings {
             f.status == "known"
                 && f.property == property
                 && !f.signature.is_empty()
-                && if let Some(prefix) = f.signature.strip_suffix('*') {
-                    signature.starts_with(prefix)
-                } else {
-                    f.signature == signature
-                }
+                && glob_match(&f.signature, signature)
         })
     }
+}
+
+/// Glob matching with `*` (any, possibly empty, substring). A pattern without
+/// `*` must match exactly.
+pub fn glob_match(pattern: &str, text: &str) -> bool {
+    let parts: Vec<&str> = pattern.split('*').collect();
+    if parts.len() == 1 {
+        return pattern == text;
+    }
+    let mut rest = text;
+    for (i, part) in parts.iter().enumerate() {
+        if i == 0 {
+            if !rest.starts_with(part) {
+                return false;
+            }
+            rest = &rest[part.len()..];
+        } else if i == parts.len() - 1 {
+            return rest.ends_with(part);
+        } else {
+            match rest.find(part) {
+                Some(pos) => rest = &rest[pos + part.len()..],
+                None => return false,
+            }
+        }
+    }
+    true
 }
 
 // ---------------------------------------------------------------------------
